@@ -126,6 +126,33 @@ MUTANTS = [
       "            raise ValueError(\"%r doesn't look like a %s cap\" % (uri, cls))\n        bits = uri[mo.end():]", "C15.8"),
     M("benign-dir-is-none", U, "        mo = cls.BASE_STRING_RE.search(uri)\n        if not mo:",
       "        mo = cls.BASE_STRING_RE.search(uri)\n        if mo is None:", None),
+    # ---- C15.9 an unprefixed cap of every kind reaches its own parser (mutation-sweep survivors)
+    M("ssk-writeable-guard-negated", U, "            if can_be_writeable:\n                return WriteableSSKFileURI",
+      "            if not can_be_writeable:\n                return WriteableSSKFileURI", "C15.9"),
+    M("dir2-ro-guard-negated", U, "            if can_be_mutable:\n                return ReadonlyDirectoryURI",
+      "            if not can_be_mutable:\n                return ReadonlyDirectoryURI", "C15.9"),
+    M("imm-prefix-test-negated", U, "    if s.startswith(ALLEGED_IMMUTABLE_PREFIX):",
+      "    if not s.startswith(ALLEGED_IMMUTABLE_PREFIX):", "C15.9"),
+    M("ro-prefix-test-negated", U, "    elif s.startswith(ALLEGED_READONLY_PREFIX):",
+      "    elif not s.startswith(ALLEGED_READONLY_PREFIX):", "C15.9"),
+    M("deep-immutable-by-default", U, "def from_string(u, deep_immutable=False, name=",
+      "def from_string(u, deep_immutable=True, name=", "C15.9"),
+    M("flags-start-cleared", U, "    can_be_mutable = can_be_writeable = not deep_immutable\n",
+      "    can_be_mutable = can_be_writeable = deep_immutable\n", "C15.9"),
+    M("prefix-always-stripped", U,
+      "        can_be_writeable = False\n        s = s[len(ALLEGED_READONLY_PREFIX):]\n",
+      "        can_be_writeable = False\n    s = s[len(ALLEGED_READONLY_PREFIX):]\n", "C15.9"),
+    M("bytes-rejected", U, "    if not isinstance(u, bytes):\n        raise TypeError", "    if isinstance(u, bytes):\n        raise TypeError", "C15.9"),
+    M("benign-flags-separate-statements", U, "    can_be_mutable = can_be_writeable = not deep_immutable\n",
+      "    can_be_mutable = not deep_immutable\n    can_be_writeable = can_be_mutable\n", None),
+    M("benign-prefix-tests-swapped", U,
+      "    if s.startswith(ALLEGED_IMMUTABLE_PREFIX):\n        can_be_mutable = can_be_writeable = False\n        s = s[len(ALLEGED_IMMUTABLE_PREFIX):]\n    elif s.startswith(ALLEGED_READONLY_PREFIX):\n        can_be_writeable = False\n        s = s[len(ALLEGED_READONLY_PREFIX):]\n",
+      "    if s.startswith(ALLEGED_READONLY_PREFIX):\n        can_be_writeable = False\n        s = s[len(ALLEGED_READONLY_PREFIX):]\n    elif s.startswith(ALLEGED_IMMUTABLE_PREFIX):\n        s = s[len(ALLEGED_IMMUTABLE_PREFIX):]\n        can_be_mutable = can_be_writeable = False\n", None),
+    M("benign-ssk-guard-inverted-branches", U,
+      "            if can_be_writeable:\n                return WriteableSSKFileURI.init_from_string(s)\n            kind = \"URI:SSK file writecap\"\n",
+      "            if not can_be_writeable:\n                kind = \"URI:SSK file writecap\"\n            else:\n                return WriteableSSKFileURI.init_from_string(s)\n", None),
+    M("benign-deep-immutable-conditional", U, "    can_be_mutable = can_be_writeable = not deep_immutable\n",
+      "    can_be_mutable = can_be_writeable = (False if deep_immutable else True)\n", None),
     # ---- vanished anchor
     M("vanish-from-string", U, "def from_string(u, deep_immutable=False", "def from_stringX(u, deep_immutable=False", "ANALYSIS-ERROR"),
 ]
